@@ -418,6 +418,8 @@ class Path:
 
     def decide(self, conds, why=''):
         if self.quant:
+            import traceback, os
+            if os.environ.get('PYVC_TRACE'): traceback.print_stack()
             raise Unsupported('case split inside a quantifier body')
         if self.pos < len(self.prefix):
             i = self.prefix[self.pos]
